@@ -384,7 +384,8 @@ def build_sim(scn, algo=None, on_call=None, on_return=None, net_cls=MonNet, moni
         s = scn["sessions"][i]
         ev = make_ev(s)
         evs[s["sid"]] = ev
-        events.append(PluginEvent(s["a"], ev))
+        # "pt": the plug-in EVENT may carry another timestamp than the EV's nominal arrival (driver early / late)
+        events.append(PluginEvent(s.get("pt", s["a"]), ev))
     for t in scn.get("recompute", []):
         events.append(RecomputeEvent(t))
     inner = algo if algo is not None else make_algorithm(scn["sched"])
